@@ -111,21 +111,22 @@ _PRETTY_TR = re.compile(r"T(\d{1,3})([NS])-R(\d{1,3})([EW])")
 _PRETTY_SEC = re.compile(r"Sec (\d{1,3}): ?(.*)", re.S)
 
 
-def lex_pretty(text, doc):
+def lex_pretty(text, doc, word_sec="Sec "):
     """TractList.pretty_desc() read line by line into the lines of spec/PlssDoc.tla :: PrettyLines
     ([k, tr, sec, block]); continuation lines of a multi-line description are folded back (their justification
     removed); anything unexpected is a line of kind "?"."""
     tr_by_text = {R.tr_canon(g["tr"]): g["tr"] for g in doc["groups"]}
     by_text = {norm_ws(t): b for b, t in doc["blocks"].items()}
     items = []
+    sec_rx = _PRETTY_SEC if word_sec == "Sec " else re.compile(re.escape(word_sec) + r"(\d{1,3}): ?(.*)", re.S)
     for line in (text or "").split("\n"):
         m = _PRETTY_TR.fullmatch(line)
         if m:
             items.append(["tr", line, None])
-        elif _PRETTY_SEC.fullmatch(line):
-            m = _PRETTY_SEC.fullmatch(line)
+        elif sec_rx.fullmatch(line):
+            m = sec_rx.fullmatch(line)
             items.append(["sec", int(m.group(1)), m.group(2)])
-        elif items and items[-1][0] == "sec" and line.startswith(" "):
+        elif items and items[-1][0] == "sec" and (line[:1] in (" ", "\t") or _PRETTY_TR.fullmatch(line) is None):
             items[-1][2] += "\n" + line
         else:
             items.append(["?", line, None])
